@@ -357,6 +357,10 @@ func runC08(r *Rng, n int, replay string) {
 		if arg.Flag == 0 {
 			arg.Flag = fWRONLY | fCREATE
 		}
+		if r.Intn(10) == 0 && p != "." {
+			// an invalid name whose leading elements are a valid path: every route must refuse it before doing anything
+			arg.P = p + []string{"/", "//x", "/../x", "/.", "/\xff"}[r.Intn(5)]
+		}
 		if baseKind == "os" && (h == "Lstat" || h == "LstatOrStat" || h == "Stat" || h == "ReadFile" || h == "Chmod") && r.Intn(2) == 0 {
 			if _, ok := sh[p]; ok && p != "." {
 				linkTo, arg.P = p, "ln"
